@@ -59,6 +59,8 @@ def gen_case(rnd, tier, index):
         wbgen.add_big_range_gadget(rnd, spec)     # a range of > 1000 cells, nearly all blank
     if rnd.random() < 0.06:
         wbgen.add_lookup_gadget(rnd, spec)
+    if rnd.random() < 0.05:
+        wbgen.add_alias_gadget(rnd, spec)
     cfg = c01.draw_cfg(rnd, spec, tier)
     if cfg.get('origin') != 'xlsx' and rnd.random() < 0.15:
         wbgen.add_table_gadget(rnd, spec)     # structured references
